@@ -64,9 +64,12 @@ def norm(x):
         return ('c', x.real, x.imag)
     if x is None:
         return None
+    if callable(x) and hasattr(x, '__qualname__'):
+        return ('callable', getattr(x, '__module__', ''), x.__qualname__)  # never an address
     if isinstance(x, np.dtype):
         return ('dtype', str(x))  # the Python class of a dtype instance is not stable across copies in NumPy 2
-    return ('o', type(x).__name__, repr(x))
+    import re as _re
+    return ('o', type(x).__name__, _re.sub(r' at 0x[0-9a-fA-F]+', '', repr(x)))
 
 
 def norm_list(seq):
